@@ -210,6 +210,8 @@ func c13Subjects(w *World) ([]*ssa.Function, error) {
 }
 
 func runC13(w *World, r *Report) {
+	entryPointsKeepNoState(w, r, "C13", compileEntryRoots(w), "reachable from compile", "compilation writes package-level storage: the output of a compilation depends on the compilations that ran before it in the same process")
+
 	subjects, err := c13Subjects(w)
 	if err != nil {
 		r.fatal("%v", err)
